@@ -329,6 +329,13 @@ def runIo (c : Cfg) (k : K) : IoEnd × K :=
   let r := runServers c (listeners c) i.2
   (.servers r.1, unregisterSignals (r.2.emit .destroy))
 
+/-- run_io up to the point where every listener is up (or one failed): signal handlers, loop init, the
+    start phase.  `none`: signal registration or loop init failed. -/
+def bootPhase (c : Cfg) (k : K) : Option (List (LSpec × Nat) × Bool × K) :=
+  if (registerSignals k).1 = false then none else
+  if ((registerSignals k).2.sys .init).1 = false then none else
+  some (startPhase (listeners c) ((registerSignals k).2.sys .init).2)
+
 /-- first descriptor number the scripted kernel hands out -/
 def firstFd : Nat := 10
 
